@@ -6,6 +6,8 @@
 #                            build; every check re-runs make for its own targets and reports a broken
 #                            proof itself, so a file of a not-yet-claimed property cannot block setup
 set +e
+# deep vm_compute/cbn terms overflow the default 8 MB stack on some hosts
+ulimit -s unlimited 2>/dev/null || ulimit -s 1000000 2>/dev/null || true
 setup=0
 if [ "$1" = "--setup" ]; then setup=1; shift; fi
 if [ $# -eq 0 ]; then set -- -k; fi
